@@ -21,6 +21,9 @@ postcondition, a change of a call site by the caller's.
                                               select_job_private / select_inst_coll
   batch/batch/front_end/front_end.py          _create_jobs: the resource section of the per-job loop body (fragment) + AST obligations
                                               on the statements around it
+  batch/batch/front_end/validate.py           handle_deprecated_job_keys: the pvc_size section (fragment, one run per key-presence shape of
+                                              the job dict) + AST obligations on validate_and_clean_jobs, handle_job_backwards_compatibility,
+                                              the validators and the handlers that call _create_jobs (wave 4)
 
 Top-level clauses (from the property statement) are those of convert_requests_to_resources (granted >= requested, fits one worker),
 of the selection functions (the chosen pool equals the request in cloud / preemptible / label / worker type; loop invariant "every
@@ -873,6 +876,251 @@ def create_jobs_resources(tables, gcp_family):
 
 
 # ---------------------------------------------------------------------------------------------
+# job schema clean-up (wave 4): "all request strings accepted by the job schema" includes the DEPRECATED spelling of the
+# storage request, a top-level `pvc_size`, which validate.handle_deprecated_job_keys rewrites to resources.storage before
+# the schema check.  What the schema accepted must be what _create_jobs later reads from spec['resources'].
+#
+# The pvc_size section of handle_deprecated_job_keys (its first statement) is executed on the real source with `job` a dict
+# tracked as a record with REFERENCE semantics (`resources = job.get('resources'); ...; resources['storage'] = ...` must be
+# seen through job['resources']: Contract.consts['__shared_records__']).  Dict key sets are definite per run, so the
+# section is verified once per key-presence shape of the request (the keys it can tell apart: pvc_size, resources,
+# resources.storage; `cpu` stands for every other resource key, job_id / process for every other job key); all VALUES are
+# symbolic.  The statements around it - the rest of the function, handle_job_backwards_compatibility, the per-job loop of
+# validate_and_clean_jobs, the handlers that call it before _create_jobs, the validators - are covered by syntactic
+# obligations computed from the real AST on every run.
+
+VAL = 'batch/batch/front_end/validate.py'
+HVAL = 'hail/python/hailtop/utils/validate/validate.py'
+PVC_ANCHOR = r"re:^if 'pvc_size' in job$"
+JOB_SHAPES = [(pvc, rk) for pvc in (True, False) for rk in (None, (), ('cpu',), ('storage',), ('cpu', 'storage'))]
+
+
+def _shape_label(pvc, rk):
+    return 'pvc_size=%s,resources=%s' % ('yes' if pvc else 'no', 'absent' if rk is None else '{%s}' % ','.join(rk))
+
+
+def _rec(v):
+    return v if isinstance(v, pyvc.SRecord) else None
+
+
+def _job_resources(job):
+    j = _rec(job)
+    return _rec(j.fields.get('resources')) if j is not None else None
+
+
+JOB_SPEC_CALLS = {
+    # res_entry_is(job, key, value): job['resources'] exists, has `key`, and the entry is `value`
+    'res_entry_is': lambda eng, st, args, kw, node: (lambda r: z3.BoolVal(False) if r is None or args[1] not in r.fields or isinstance(r.fields[args[1]], pyvc.SRecord) else eng.equal(r.fields[args[1]], args[2]))(_job_resources(args[0])),
+    # res_keys_are(job, keys): job['resources'] exists with exactly these keys; res_absent(job): no 'resources' key
+    'res_keys_are': lambda eng, st, args, kw, node: (lambda r: z3.BoolVal(r is not None and sorted(r.fields) == sorted(args[1])))(_job_resources(args[0])),
+    'res_absent': lambda eng, st, args, kw, node: z3.BoolVal(_rec(args[0]) is not None and 'resources' not in _rec(args[0]).fields),
+    'job_keys_are': lambda eng, st, args, kw, node: z3.BoolVal(_rec(args[0]) is not None and sorted(_rec(args[0]).fields) == sorted(args[1])),
+    'job_entry_is': lambda eng, st, args, kw, node: (lambda j: z3.BoolVal(False) if j is None or args[1] not in j.fields or isinstance(j.fields[args[1]], pyvc.SRecord) else eng.equal(j.fields[args[1]], args[2]))(_rec(args[0])),
+}
+
+
+def deprecated_job_keys(pvc, rk):
+    """contract of the pvc_size section of handle_deprecated_job_keys for one key-presence shape of the job"""
+    both = pvc and rk is not None and 'storage' in rk
+
+    def setup(eng, st):
+        job = pyvc.SRecord('dict')
+        for k in ('job_id', 'process'):
+            job.fields[k] = st.env['OLD_' + k] = z3.Const('in_job.' + k, pyvc.U)
+        if rk is not None:
+            res = pyvc.SRecord('dict')
+            for k in rk:
+                res.fields[k] = st.env['OLD_' + k] = z3.Const('in_job.resources.' + k, pyvc.U)
+            job.fields['resources'] = res
+        if pvc:
+            job.fields['pvc_size'] = st.env['OLD_PVC'] = z3.Const('in_job.pvc_size', pyvc.U)
+        st.env['job'] = job
+        st.env['i'] = z3.Int('in_i')
+        st.env['OTHER'] = z3.Const('some_other_value', pyvc.U)
+        # job_validator['resources']['storage'] is the schema entry of the storage request (the only validator the section uses)
+        st.env['job_validator'] = pyvc.SRecord('dict', {'resources': pyvc.SRecord('dict', {'storage': pyvc.SRecord('storage-schema')})})
+
+    def validate(eng, st, args, kw, node):
+        recv, rest = args[0], args[1:]
+        if not (isinstance(recv, pyvc.SRecord) and recv.cls == 'storage-schema') or kw or len(rest) != 2:
+            raise core.Undecided('validate() of something else than the storage schema entry (line %d)' % node.lineno)
+        ok = eng.uf('schema_accepts_storage', ['U'], 'bool')(pyvc.to_z3(rest[1], 'U'))
+        raise pyvc.Fork(node, [('schema-rejects-the-value', z3.Not(ok), 'raise', pyvc.SExc('ValidationError')), ('schema-accepts-the-value', ok, 'value', None)])
+
+    keys_after = sorted(set(rk or ()) | ({'storage'} if pvc else set()))
+    kept = ' and '.join(["res_keys_are(job, %r)" % (tuple(keys_after),)] + ["res_entry_is(job, %r, OLD_%s)" % (k, k) for k in (rk or ())]) if (pvc or rk is not None) else 'res_absent(job)'
+    ensures = []
+    if pvc and not both:
+        ensures += [
+            ('deprecated-pvc_size-becomes-the-storage-request-of-the-job', "res_entry_is(job, 'storage', OLD_PVC)"),
+            ('accepted-only-if-the-storage-schema-accepts-the-value', 'schema_accepts_storage(OLD_PVC)'),
+        ]
+    if not both:
+        ensures += [
+            ('other-resource-requests-are-kept-and-none-is-invented', kept),
+            ('deprecated-key-is-gone-and-the-other-job-keys-are-kept', "job_keys_are(job, %r) and job_entry_is(job, 'job_id', OLD_job_id) and job_entry_is(job, 'process', OLD_process)" % (tuple(sorted({'job_id', 'process'} | ({'resources'} if (pvc or rk is not None) else set()))),)),
+        ]
+    raises = {}
+    if both:
+        raises = {'ValidationError': True}
+    elif pvc:
+        raises = {'ValidationError': 'not schema_accepts_storage(OLD_PVC)'}
+    return K(
+        path=VAL,
+        qualname='handle_deprecated_job_keys',
+        label='handle_deprecated_job_keys[%s]' % _shape_label(pvc, rk),
+        fragment=(PVC_ANCHOR, 1),
+        spec_funcs={'schema_accepts_storage': (['U'], 'bool')},
+        consts={'__shared_records__': True},
+        setup=setup,
+        calls=dict(JOB_SPEC_CALLS, **{'.validate': validate}),
+        raises=raises,
+        ensures=ensures,
+        canaries=[] if both else [('storage-request-is-some-other-value', "res_entry_is(job, 'storage', OTHER)")],
+    )
+
+
+def run_deprecated_job_keys(ctx, replayer):
+    for pvc, rk in JOB_SHAPES:
+        c = deprecated_job_keys(pvc, rk)
+        eng = pyvc.Engine(ctx, c)
+        eng.replayer = replayer
+        eng.run()
+        if pvc and rk is not None and 'storage' in rk:
+            # both spellings at once: the request is refused on every path (nothing to grant, nothing to under-provision)
+            ctx.add(core.decided('%s/both-spellings-of-the-storage-request-are-refused' % eng.label, eng.normal_exits == 0 and eng.exc_exits >= 1, 'normal exits %d, exceptional exits %d' % (eng.normal_exits, eng.exc_exits), kind='vc'), replay=replayer)
+        else:
+            for name, _ in c.canaries:
+                if not eng.canary_paths.get(name):
+                    raise core.CheckerBug('%s: canary %s was never evaluated' % (eng.label, name))
+        ctx.add(core.decided('%s/frame/no-call-outside-the-contracts' % eng.label, not eng.unmodelled, repr(eng.unmodelled), kind='frame'))
+
+
+def _uses_of(fn, name):
+    """every Name node `name` in fn together with its parent chain (innermost first)"""
+    parents = {}
+    for n in ast.walk(fn):
+        for ch in ast.iter_child_nodes(n):
+            parents[id(ch)] = n
+    out = []
+    for n in ast.walk(fn):
+        if isinstance(n, ast.Name) and n.id == name:
+            chain, cur = [], n
+            while id(cur) in parents:
+                cur = parents[id(cur)]
+                chain.append(cur)
+            out.append((n, chain))
+    return out
+
+
+def _job_dict_writes(stmts, name='job'):
+    """how the statements change the dict bound to `name`: (constant keys stored / deleted / popped, offending uses).  An
+    offending use is anything through which the dict could change in a way this scan cannot name: a store / delete / pop with
+    a non-literal key, another mutating method, rebinding the name, or handing the whole dict to a call."""
+    keys, bad = set(), []
+    holder = ast.Module(body=list(stmts), type_ignores=[])
+    for n, chain in _uses_of(holder, name):
+        par = chain[0] if chain else None
+        if isinstance(n.ctx, (ast.Store, ast.Del)):
+            bad.append('rebinds %s (line %d)' % (name, n.lineno))
+        elif isinstance(par, ast.Subscript) and par.value is n:
+            k = par.slice.value if isinstance(par.slice, ast.Constant) and isinstance(par.slice.value, str) else None
+            if isinstance(par.ctx, (ast.Store, ast.Del)):
+                if k is None:
+                    bad.append('writes %s (line %d)' % (ast.unparse(par), n.lineno))
+                else:
+                    keys.add(k)
+            elif k is None and not (len(chain) > 1 and isinstance(chain[1], ast.Call) and par in chain[1].args):
+                bad.append('reads %s outside a call argument (line %d)' % (ast.unparse(par), n.lineno))
+        elif isinstance(par, ast.Attribute) and par.value is n:
+            call = chain[1] if len(chain) > 1 and isinstance(chain[1], ast.Call) and chain[1].func is par else None
+            k = call.args[0].value if call is not None and call.args and isinstance(call.args[0], ast.Constant) and isinstance(call.args[0].value, str) else None
+            if par.attr in ('get', 'items', 'keys', 'values') and call is not None:  # read-only dict methods
+                pass
+            elif par.attr == 'pop' and k is not None:
+                keys.add(k)
+            else:
+                bad.append('%s.%s (line %d)' % (name, par.attr, n.lineno))
+        elif isinstance(par, ast.Compare) and n in par.comparators and all(isinstance(o, (ast.In, ast.NotIn)) for o in par.ops):
+            pass
+        else:
+            bad.append('%s used as a value: %s (line %d)' % (name, ast.unparse(par) if par is not None else '?', n.lineno))
+    return keys, bad
+
+
+def job_schema_context(ctx):
+    """syntactic facts around the pvc_size section (computed from the real AST on every run)"""
+    vtree = ast.parse(core.read_repo(VAL))
+    add = lambda name, ok, detail='': ctx.add(core.decided('job-schema[context]/' + name, bool(ok), detail, kind='scan'))
+    # 1. the rest of handle_deprecated_job_keys, and handle_job_backwards_compatibility (which runs after the schema check),
+    #    leave job['resources'] alone: they only add / remove literal top-level keys other than `resources`, never reach into it
+    hd = pyvc.find_function(vtree, 'handle_deprecated_job_keys')
+    texts = [pyvc._header_text(x) for x in hd.body]
+    at = [k for k, t in enumerate(texts) if pyvc._anchor_match(PVC_ANCHOR, t)]
+    rest = [x for k, x in enumerate(hd.body) if k not in at[:1]]
+    params = [a.arg for a in hd.args.args]
+    add('handle_deprecated_job_keys/takes-the-job-dict-as-its-second-parameter', params == ['i', 'job'] and len(at) == 1, '%r, pvc_size sections at %r' % (params, at))
+    for fname, stmts in (('handle_deprecated_job_keys[after-the-pvc_size-section]', rest), ('handle_job_backwards_compatibility', pyvc.find_function(vtree, 'handle_job_backwards_compatibility').body)):
+        keys, bad = _job_dict_writes(stmts)
+        mentions = sorted({n.value for s_ in stmts for n in ast.walk(s_) if isinstance(n, ast.Constant) and n.value in ('resources', 'pvc_size', 'storage')})
+        add('%s/changes-only-literal-top-level-keys-of-the-job' % fname, not bad, repr(bad))
+        add('%s/leaves-the-resource-requests-alone' % fname, not ({'resources', 'pvc_size'} & keys) and not mentions, 'keys written %r, mentions %r' % (sorted(keys), mentions))
+    # 2. validate_and_clean_jobs: every job of the request goes through handle_deprecated_job_keys and THEN the schema check,
+    #    both on the dict that stays in the list
+    vc_ = pyvc.find_function(vtree, 'validate_and_clean_jobs')
+    loops = [n for n in vc_.body if isinstance(n, ast.For)]
+    ok, detail = False, ''
+    if len(loops) == 1 and ast.unparse(loops[0].iter) == 'enumerate(jobs)' and ast.unparse(loops[0].target) == '(i, job)' and not loops[0].orelse:
+        calls = [ast.unparse(x.value) for x in loops[0].body if isinstance(x, ast.Expr) and isinstance(x.value, ast.Call)]
+        rebinding = [n.lineno for n, _ in _uses_of(loops[0], 'job') if isinstance(n.ctx, (ast.Store, ast.Del))][1:] + [n.lineno for n, _ in _uses_of(vc_, 'jobs') if isinstance(n.ctx, (ast.Store, ast.Del))]
+        first_two = [ast.unparse(x) for x in loops[0].body[:2]]
+        ok = first_two[:1] == ['handle_deprecated_job_keys(i, job)'] and len(first_two) == 2 and first_two[1].startswith('job_validator.validate(') and first_two[1].endswith(', job)') and not rebinding
+        detail = '%r rebinding %r' % (calls, rebinding)
+    add('validate_and_clean_jobs/every-job-is-cleaned-of-deprecated-keys-then-checked-against-the-schema', ok, detail)
+    guard = [x for x in vc_.body if isinstance(x, ast.If) and ast.unparse(x.test) == 'not isinstance(jobs, list)' and len(x.body) == 1 and isinstance(x.body[0], ast.Raise)]
+    add('validate_and_clean_jobs/the-request-body-is-a-list', len(guard) == 1 and vc_.body.index(guard[0]) < vc_.body.index(loops[0]) if loops else False)
+    # 3. the schema entry of the storage request is the one the deprecated value is checked against, and `resources` accepts no other keys
+    res_keys = None
+    for n in vtree.body:
+        if isinstance(n, ast.Assign) and len(n.targets) == 1 and isinstance(n.targets[0], ast.Name) and n.targets[0].id == 'job_validator' and isinstance(n.value, ast.Call) and n.value.args and isinstance(n.value.args[0], ast.Dict):
+            for k, v in zip(n.value.args[0].keys, n.value.args[0].values):
+                if isinstance(k, ast.Constant) and k.value == 'resources' and isinstance(v, ast.Call) and ast.unparse(v.func) == 'keyed' and v.args and isinstance(v.args[0], ast.Dict):
+                    res_keys = {ast.unparse(kk): ast.unparse(vv) for kk, vv in zip(v.args[0].keys, v.args[0].values)}
+    add('job_validator/resources-is-a-keyed-schema-with-a-storage-entry-and-no-pvc_size', res_keys is not None and "'storage'" in res_keys and "'pvc_size'" not in res_keys, repr(res_keys))
+    # 4. validators only read the object they check (KeyedValidator & co. never store into `obj`)
+    htree = ast.parse(core.read_repo(HVAL))
+    writes = []
+    for fn in ast.walk(htree):
+        if isinstance(fn, ast.FunctionDef) and fn.name == 'validate':
+            prm = [a.arg for a in fn.args.args]
+            if len(prm) >= 3:
+                _, bad = _job_dict_writes(fn.body, prm[2])
+                writes += [b for b in bad if not b.startswith(('%s used as a value' % prm[2], 'reads '))]
+                keys, _ = _job_dict_writes(fn.body, prm[2])
+                writes += ['stores key %r' % k for k in sorted(keys)]
+    add('validators/never-write-into-the-object-they-check', not writes, repr(writes))
+    # 5. every handler hands _create_jobs the very list it passed through validate_and_clean_jobs
+    ftree = ast.parse(core.read_repo(FE))
+    sites, bad = 0, []
+    for fn in ftree.body:  # handlers are module-level functions; calls inside their nested helpers belong to them
+        if not isinstance(fn, (ast.FunctionDef, ast.AsyncFunctionDef)) or fn.name == '_create_jobs':
+            continue
+        calls = [n for n in ast.walk(fn) if isinstance(n, ast.Call) and isinstance(n.func, ast.Name) and n.func.id == '_create_jobs']
+        for cnode in calls:
+            sites += 1
+            arg = cnode.args[1] if len(cnode.args) >= 2 and isinstance(cnode.args[1], ast.Name) else None
+            if arg is None:
+                bad.append('%s: job specs are not passed as a plain name (line %d)' % (fn.name, cnode.lineno))
+                continue
+            checked = [n.lineno for n in ast.walk(fn) if isinstance(n, ast.Call) and isinstance(n.func, ast.Name) and n.func.id == 'validate_and_clean_jobs' and len(n.args) == 1 and isinstance(n.args[0], ast.Name) and n.args[0].id == arg.id and n.lineno < cnode.lineno]
+            stores = [n.lineno for n, _ in _uses_of(fn, arg.id) if isinstance(n.ctx, (ast.Store, ast.Del))]
+            if not checked or len(stores) != 1 or stores[0] > checked[0]:
+                bad.append('%s: %s validated at %r, bound at %r, passed on at line %d' % (fn.name, arg.id, checked, stores, cnode.lineno))
+    add('front-end/every-caller-of-_create_jobs-passes-the-list-it-validated', sites >= 1 and not bad, '%d call sites; %r' % (sites, bad))
+    ctx.under_contract(VAL, 'validate_and_clean_jobs / handle_job_backwards_compatibility / rest of handle_deprecated_job_keys (syntactic)')
+
+
+# ---------------------------------------------------------------------------------------------
 # native side: bounded stand-ins, table facts, witness search (contracts/native/c12_native.py on the real modules)
 
 NATIVE = os.path.join(os.path.dirname(__file__), 'native', 'c12_native.py')
@@ -1071,6 +1319,8 @@ def build(ctx):
     c, leaf = create_jobs_resources(tables, gcp_family)
     run(ctx, c, callees=leaf, replayer=R('_create_jobs[resources]'))
     front_end_context(ctx)
+    run_deprecated_job_keys(ctx, R('validate_and_clean_jobs'))
+    job_schema_context(ctx)
     table_facts(ctx)
     bounded_standins(ctx)
     ctx.witness_search = lambda: native('search')
@@ -1092,10 +1342,14 @@ def record_assumptions(ctx):
     a('prices (price_per_hour, possible_cloud_locations) are opaque and their ordering is arbitrary: which of several satisfying pools is the cheapest is not part of the property')
     a('C25 contracts of the string parsers: parse_cpu_in_mcpu / parse_storage_in_bytes return None or the non-negative value of the string; parse_memory_in_bytes is not None because validate_and_clean_jobs accepted the memory string (MEMORY_REGEX or a memory class) before _create_jobs runs')
     a('_create_jobs is verified on the resource section of its per-job loop body (from `if machine_type is None` to the unpacking of the selection); the statements around it are covered by the syntactic obligations _create_jobs[context]/...; CLOUD in {gcp, azure}')
+    a('job dicts of validate.handle_deprecated_job_keys are tracked as records with a definite key set and reference semantics (aliases of a nested dict stay aliases across path splits); its pvc_size section is verified once per key-presence shape of the job (pvc_size yes/no x resources absent / {} / {cpu} / {storage} / {cpu, storage}): `cpu` stands for every other resource key, job_id and process for every other job key, all values are symbolic')
+    a('job_validator["resources"]["storage"].validate(name, value) returns or raises ValidationError according to an uninterpreted predicate of the value (schema_accepts_storage): which strings the schema accepts is C25; validators only read the checked object (syntactic obligation validators/never-write-into-the-object-they-check)')
     a('modular calls: a callee that has a contract here is replaced by "assert requires; assume ensures" (Engine.call_contract / call_contract_ex); Optional results and allowed exceptions come back as separate paths')
     ctx.undecided('which satisfying pool is chosen (cheapest): pricing is opaque here and irrelevant to the property')
     ctx.undecided('"all request strings accepted by the job schema": the string -> number step is C25; here the parsed numbers are arbitrary non-negative ints')
     ctx.undecided('storage "fits on one worker": in this fork convert_requests_to_resources does not compare the storage request with the worker data disk (extra storage is a separately attached disk); only the per-cloud maximum disk size is checked')
+    ctx.undecided('a request body with "resources": null next to pvc_size raises TypeError inside handle_deprecated_job_keys (HTTP 500) before the schema check: a rejection, not a shape of the contract; reported as an oddity')
+    ctx.undecided('select_cheapest_price_pool: a restructuring that no longer fits the loop invariants (they name the running choice) is decided by the native witness search (pool orders x price orders), not by the solver')
     ctx.undecided('requests with machine_type == "" end in an AssertionError inside select_inst_coll (HTTP 500), not in a 400 rejection: allowed by the contract as a rejection, reported as an oddity')
 
 
